@@ -5,7 +5,7 @@ import itertools
 import random
 
 HEAD = """
-import asyncio, dataclasses, enum, os, typing
+import asyncio, dataclasses, enum, os, typing, typing_extensions
 from typing import Any, Callable, Dict, Generic, List, Optional, Tuple, TypeVar, Union
 T = TypeVar("T")
 class Base:
@@ -64,10 +64,16 @@ ANNS = ["Literal[-'a']", "Literal[-None]", "Literal[-1]", "Literal[-1.5]", "Lite
         "int | 'str'", "(int, str)", "int.real", "typing.Literal[Col.R, -Col.G]", "T[int]", "Child[int, str]", "DC(1)", "print", "...", "b'x'", "''", "' '", "1", "1.5 + 2j", "*int", "**int", "await x", "(yield)", "x for x in y"]
 
 
-def _ann_stmt(rnd):
-    a = rnd.choice(ANNS)
+NESTED_MISTAKES = ["typing.List[typing.Nope]", "Dict[str, typing.Nope]", "List[Undefined.attr]", "Optional[List[int + 1]]", "Callable[[typing.Nope], int]", "Tuple[int, Literal[-'a']]"]
+EMPTY_SUBSCRIPTS = [f"{n}[()]" for n in ("typing.Annotated", "typing_extensions.Annotated", "Optional", "Type", "Callable", "Dict", "List", "typing.Set", "typing.ClassVar", "typing.Final", "typing_extensions.Required",
+                                            "typing_extensions.NotRequired", "typing_extensions.TypeGuard", "typing_extensions.Unpack", "typing_extensions.Concatenate", "Child", "T")]
+FORMS = ["var", "param", "ret", "cast", "both"]
+
+
+def _ann_stmt(rnd, a=None, form=None):
+    a = rnd.choice(ANNS) if a is None else a
     q = repr(a)
-    form = rnd.choice(["var", "param", "ret", "cast", "both"])
+    form = rnd.choice(FORMS) if form is None else form
     if form == "var":
         return f"x: {q} = 1"
     if form == "param":
@@ -88,6 +94,60 @@ def module(rnd, n):
         lines.append(f"{kind} f{i}(p: int, q=None, *r, **s):\n    {st}\n")
     src = "\n".join(lines)
     return src
+
+
+def verify_module(src):
+    """no exception, no internal_error, registered codes, positions inside the file, non-empty messages"""
+    from replay.checkcode import check_code
+    from pyanalyze.error_code import ErrorCode, Error
+    registered = set(ErrorCode)
+    nlines = src.count("\n") + 1
+    try:
+        res = check_code(src)
+    except BaseException as e:   # noqa: the property is exactly that this does not happen
+        return f"the checker raised {type(e).__name__}: {e} on\n{src[len(HEAD):]}"
+    src_lines = src.split("\n")
+    for fl in res:
+        code = fl.get("code")
+        if code is None or not isinstance(code, Error) or code not in registered:
+            return f"diagnostic without a registered error code: {fl}"
+        if code is ErrorCode.internal_error:
+            return f"internal_error: {fl.get('description')} on\n{src[len(HEAD):]}"
+        ln = fl.get("lineno")
+        if ln is not None and not (1 <= ln <= nlines):
+            return f"diagnostic line {ln} outside the file (1..{nlines}): {fl.get('description')}"
+        col = fl.get("col_offset")
+        if ln is not None and col is not None and not (0 <= col <= len(src_lines[ln - 1])):
+            return f"diagnostic column {col} outside line {ln} ({len(src_lines[ln - 1])} characters): {fl.get('description')}"
+        if not (fl.get("description") or "").strip() or not (fl.get("message") or "").strip():
+            return f"diagnostic with empty message: {fl}"
+    return None
+
+
+def search_annotations():
+    """every malformed annotation of the list (plus every special form subscripted with the empty tuple), as a string annotation, in every position"""
+    import ast
+    rnd = random.Random(0)
+    stmts = [(a, f) for a in ANNS + EMPTY_SUBSCRIPTS + NESTED_MISTAKES for f in FORMS]
+    for off in range(0, len(stmts), 30):
+        lines = [HEAD]
+        for i, (a, f) in enumerate(stmts[off:off + 30]):
+            lines.append(f"def f{i}(p: int, q=None, *r, **s):\n    {_ann_stmt(rnd, a, f)}\n")
+        src = "\n".join(lines)
+        try:
+            import warnings
+            with warnings.catch_warnings():
+                warnings.simplefilter("ignore")
+                ast.parse(src)
+                exec(compile(src, "<gen>", "exec"), {})
+        except Exception as e:
+            return f"harness: the systematic annotation module does not import ({type(e).__name__}: {e})"
+        from replay.util import count as _count
+        _count(evaluations=30, distinct=30)
+        msg = verify_module(src)
+        if msg:
+            return msg
+    return None
 
 
 def search_programs(count, seed):
@@ -114,26 +174,9 @@ def search_programs(count, seed):
         _count(evaluations=1, distinct=1)
         if done == 1:
             sample({"module_body": src[len(HEAD):][:600], "checked_for": "no exception, no internal_error, well-formed diagnostics"})
-        nlines = src.count("\n") + 1
-        try:
-            res = check_code(src)
-        except BaseException as e:   # noqa: the property is exactly that this does not happen
-            return f"the checker raised {type(e).__name__}: {e} on\n{src[len(HEAD):]}"
-        src_lines = src.split("\n")
-        for fl in res:
-            code = fl.get("code")
-            if code is None or not isinstance(code, Error) or code not in registered:
-                return f"diagnostic without a registered error code: {fl}"
-            if code is ErrorCode.internal_error:
-                return f"internal_error: {fl.get('description')} on\n{src[len(HEAD):]}"
-            ln = fl.get("lineno")
-            if ln is not None and not (1 <= ln <= nlines):
-                return f"diagnostic line {ln} outside the file (1..{nlines}): {fl.get('description')}"
-            col = fl.get("col_offset")
-            if ln is not None and col is not None and not (0 <= col <= len(src_lines[ln - 1])):
-                return f"diagnostic column {col} outside line {ln} ({len(src_lines[ln - 1])} characters): {fl.get('description')}"
-            if not (fl.get("description") or "").strip() or not (fl.get("message") or "").strip():
-                return f"diagnostic with empty message: {fl}"
+        msg = verify_module(src)
+        if msg:
+            return msg
     return None
 
 
@@ -148,6 +191,23 @@ def values():
     U = typing.TypeVar("U", bound=int)
     W = typing.TypeVar("W", int, str)
     NT = typing.NewType("NT", int)
+
+    class RaisingEq:
+        """== raises for two distinct instances (a currency-mismatch style comparison)"""
+        def __eq__(self, other):
+            if other is self:
+                return True
+            raise ValueError("cannot compare")
+        __hash__ = object.__hash__
+
+    class NoTruth:
+        """== returns an object without a truth value"""
+        def __eq__(self, other):
+            class R:
+                def __bool__(self):
+                    raise TypeError("no truth value")
+            return R()
+        __hash__ = object.__hash__
     sig = Signature.make([SigParameter("x", ParameterKind.POSITIONAL_ONLY, annotation=TypedValue(int))], TypedValue(str))
     base = [KnownValue(1), KnownValue(None), KnownValue([1, {}]), KnownValue(int), KnownValue(len), KnownValue("s"), TypedValue(int), TypedValue(str), TypedValue(type), TypedValue(object),
             GenericValue(list, [TypedValue(int)]), GenericValue(dict, [TypedValue(str), TypeVarValue(T)]), GenericValue(list, []), SequenceValue(tuple, []),
@@ -159,7 +219,7 @@ def values():
             NewTypeValue(NT), UnboundMethodValue("append", Composite(TypedValue(list))), UnboundMethodValue("nope", Composite(KnownValue(1)), "secondary"),
             DictIncompleteValue(dict, [KVPair(KnownValue("k"), TypedValue(int)), KVPair(TypedValue(str), TypeVarValue(T), is_many=True, is_required=False)]),
             MultiValuedValue([KnownValue(i) for i in range(12)]), MultiValuedValue([KnownValue(c) for c in "abcdefghijkl"] + [KnownValue(None)]), KnownValue({}), KnownValue({1, 2}),
-            KnownValue((1, [2])),
+            KnownValue((1, [2])), KnownValue(RaisingEq()), KnownValue(RaisingEq()), KnownValue(NoTruth()), KnownValue(NoTruth()),
             DictIncompleteValue(dict, [KVPair(KnownValue("a"), TypedValue(int)), KVPair(KnownValue([1, 2]), TypedValue(int))]),
             DictIncompleteValue(dict, [KVPair(KnownValue({}), TypedValue(int))]), TypedDictValue({"a": TypedDictEntry(TypedValue(int))})]
     return base, {T: TypedValue(int), U: KnownValue(True), W: TypedValue(str)}
@@ -201,7 +261,7 @@ def _hashable(v):
 
 def r_c12(rec):
     thorough = bool(rec and rec.get("tier") == "thorough")
-    msg = search_values() or search_programs(600 if thorough else 120, 1)
+    msg = search_values() or search_annotations() or search_programs(600 if thorough else 120, 1)
     return (True, msg) if msg else (False, "no crash, no internal_error, well-formed diagnostics on the generated modules; value API total on the generated pairs")
 
 
